@@ -5,7 +5,7 @@ from typing import Any, Dict
 
 from .. import compare as cmp
 from ..core import Outcome, Prop
-from .component import COMPONENT, compare_c04 as _component
+from .component import COMPONENT, MULTIINDEX, compare_c04 as _component, compare_mi_c04 as _multiindex
 from .c06 import FRAME_ROWS_ALL
 from . import slices
 
@@ -13,6 +13,8 @@ from . import slices
 def compare(vec: Dict[str, Any], obs: Dict[str, Any]) -> Outcome:
     if vec.get("kind") == "component":
         return _component(vec, obs)
+    if vec.get("kind") == "multiindex":
+        return _multiindex(vec, obs)
     if vec.get("kind") == "rows":
         oc = Outcome()
         who = "%s DataFrameSchema.validate" % vec["backend"]
@@ -58,7 +60,7 @@ def compare(vec: Dict[str, Any], obs: Dict[str, Any]) -> Outcome:
 PROP = Prop(
     id="C04",
     title="Validation never modifies the caller's data unless inplace=True",
-    slices=[slices.SERIES_PARSE, slices.FRAME_PARSE, slices.SERIES, COMPONENT, FRAME_ROWS_ALL] + slices.FRAME_SLICES,
+    slices=[slices.SERIES_PARSE, slices.FRAME_PARSE, slices.SERIES, COMPONENT, MULTIINDEX, FRAME_ROWS_ALL] + slices.FRAME_SLICES,
     compare=compare,
     rule=("The pipeline specification models aliasing explicitly (Preprocess sets aliased := inplace; every in-place stage "
           "writes through Write); TLC proves NoCallerMutation for every explored run. Each run is replayed with a deep "
